@@ -17,21 +17,24 @@ EDGES = [-np.inf, 30.0, 50.0, 70.0, np.inf]
 N_CLUSTERS = 2
 
 
-def document(scaling="standardscaler", months=range(1, 13), tz="US/Pacific", seed=0, solar=False, annotated=False):
+def document(scaling="standardscaler", months=range(1, 13), tz="US/Pacific", seed=0, solar=False, annotated=False, extra=None):
     """stored hourly model; temporal clusters known for `months` x 7 weekdays (weekday -> 0, weekend -> 1)"""
     rng = np.random.default_rng(seed)
     nb = len(EDGES) - 1
     clusters = [[mo, d, int(d >= 5)] for mo in months for d in range(7)]
     cat = [f"temporal_cluster_{i}" for i in range(N_CLUSTERS)] + [f"temp_bin_{i}" for i in range(nb)]
-    ts = ["temperature"] + (["ghi"] if solar else [])
+    ts = ["temperature"] + (["ghi"] if solar else []) + ([extra] if extra else [])  # extra: a supplemental time-series column
     # 24 hourly values per time-series feature: temperature per bin, temperature per cluster, 2 edge bins x (pos, neg)
     # exponential terms (+ ghi for solar models); then the daily dummies
-    nf = 24 * (nb + N_CLUSTERS + 4 + (1 if solar else 0)) + len(cat)
+    nf = 24 * (nb + N_CLUSTERS + 4 + (1 if solar else 0) + (1 if extra else 0)) + len(cat)
     cls = hs.HourlySolarSettings if solar else hs.HourlyNonSolarSettings
-    st = json.loads(cls(scaling_method=scaling).model_dump_json())
+    kw = dict(supplemental_time_series_columns=[extra]) if extra else {}
+    st = json.loads(cls(scaling_method=scaling, **kw).model_dump_json())
     fs = {"temperature": [55.0, 18.0]}
     if solar:
         fs["ghi"] = [200.0, 150.0]
+    if extra:
+        fs[extra] = [0.5, 0.25]
     info = {"warnings": [], "disqualification": [], "error": {}, "baseline_timezone": tz, "version": "verif"}
     if annotated:
         info["warnings"] = [dict(qualified_name="eemeter.w", description="w", data={})]
@@ -48,7 +51,7 @@ def model(**kw):
     return HourlyModel.from_dict(document(**kw))
 
 
-def weather(start, days, tz="US/Pacific", seed=1, usage=True, ghi=False):
+def weather(start, days, tz="US/Pacific", seed=1, usage=True, ghi=False, extra=None):
     idx = pd.date_range(pd.Timestamp(start).tz_localize(tz), (pd.Timestamp(start) + pd.Timedelta(days=days)).tz_localize(tz), freq="h", inclusive="left")
     rng = np.random.default_rng(seed)
     df = pd.DataFrame({"temperature": rng.normal(55, 15, len(idx))}, index=idx)
@@ -56,11 +59,13 @@ def weather(start, days, tz="US/Pacific", seed=1, usage=True, ghi=False):
         df["ghi"] = np.abs(rng.normal(200, 150, len(idx)))
     if usage:
         df["observed"] = np.abs(rng.normal(1.5, 0.5, len(idx))) + 0.1
+    if extra:
+        df[extra] = np.clip(np.random.default_rng(seed + 7).normal(0.5, 0.25, len(idx)), 0, 1)
     return df
 
 
-def reporting(start, days, tz="US/Pacific", seed=1, usage=True, ghi=False):
-    return HourlyReportingData(weather(start, days, tz, seed, usage, ghi), is_electricity_data=True)
+def reporting(start, days, tz="US/Pacific", seed=1, usage=True, ghi=False, extra=None):
+    return HourlyReportingData(weather(start, days, tz, seed, usage, ghi, extra), is_electricity_data=True)
 
 
 def state(m):
